@@ -80,6 +80,11 @@ CHECKS = {
    text="Client.Do is executed against scripts of up to 2 (quick)/3 (thorough) server packets drawn from {Data, Totals (0/1 rows or the empty end marker), Progress, Profile, TableColumns, Log, ProfileEvents, Exception (chain depth 1..3 quick / 1..4 thorough), EndOfStream} with all field values, cells and exception codes symbolic, with and without OnResult and with a failing callback at a chosen invocation. Assertions: the callback trace (results with the bound column's contents at callback time, progress, profile, logs, profile events) equals the projection of the script in order; Do returns nil iff the script ended with EndOfStream and no callback failed (incl. the no-OnResult single-block rule); an exception is recovered by errors.As with code/name/message/stack/chain and every code of the chain matches errors.Is.",
    ref="DESIGN.md §4 C03",
    note="bounds: <=2/3 packets, one result column (UInt64), 1-row telemetry blocks, integer fields 7 bit, revisions {54460, 54453, 54419, 51902} in quick (one symbolic revision >= 50264 in thorough), compression off, instrumentation off; non-preemptive schedules only"),
+ "C12": dict(
+   level="model_checking",
+   text="Client.Do's sender, receiver and cancel-watch goroutines (real errgroup, context model) are executed symbolically over a goroutine-safe scripted connection for a SELECT (progress, data, profile, end of stream), a streamed INSERT whose progress packets arrive while blocks are still being sent, the SELECT with Client.Close called from a foreign goroutine, and a Ping afterwards; OpenTelemetry instrumentation off and on (no-op tracer); three scheduling policies; a chpool shared by two goroutines plus the idle health check. A happens-before (vector clock) analysis inside the executor treats 'two conflicting accesses of library code not ordered by go/channel/close/select/Mutex/Once/WaitGroup/Pool/atomic/context edges' as an implicit assertion on every symbolic path. A reported race is replayed in a -race build and must be confirmed by the Go race detector; witness replays run under -race too and a native report on an engine-clean path makes the check inconclusive.",
+   ref="DESIGN.md §2.8, §4 C12",
+   note="bounds: the enumerated scenarios, one block per packet, revision 54460, compression off; the verdict on a path covers every input value of that path and every interleaving with the same synchronisation order, not every schedule of the program; accesses inside native models (errors, fmt, zap, otel other than span contexts, bytealg, time) are not tracked; the happens-before model is coarser than the Go memory model only in the direction of more edges (may miss, cannot invent); 'unordered' is a vector-clock comparison, the solver decides path feasibility and the for-all-values part"),
  "C13": dict(
    level="model_checking",
    text="The real Connect/Dial/handshake (two goroutines under the cooperative scheduler) are executed with the client revision AND the server revision as two symbolic integers (every pair), symbolic hello strings, credentials and quota key. Success: negotiated revision == min(client, server), ServerInfo() as sent, client bytes == reference hello + addendum iff min >= 54458 carrying the quota key, then Ping and a Query whose bytes equal the reference encoder at exactly the negotiated revision. Failure (exception, wrong packet, hello cut at every byte, silence): error carrying the exception, no client, the dialed connection closed. Delay: a hello arriving 1s/10s/100s into a 200s handshake timeout is accepted, through Connect and through Dial with a harness dialer (default DialTimeout).",
@@ -103,7 +108,6 @@ CHECKS = {
 }
 
 NA = {
- "C12": "data races need preemptive interleavings and a happens-before model; the engine runs goroutines as non-preemptive coroutines, so a race is unobservable to this technique (DESIGN.md §5)",
 }
 
 def main():
